@@ -150,7 +150,9 @@ def long_batch(spec, rec, ac):
             target = rng.randint(12000, 25000)
             where = rng.randint(1, 6)
             while size < target:
-                para = gen.markup_doc(rng)
+                # mostly ordinary prose: long opinions are not citation-dense, and a reference that lands
+                # in prose is not absorbed by a neighbouring citation's extent
+                para = gen.markup_doc(rng) if rng.random() < 0.15 else "<p>" + gen.filler(rng, rng.randint(200, 900)).capitalize() + ".</p>"
                 if len(paras) == where:
                     para = (f"<p>See {gen._it(rng, P + ' v. ' + D + ',')} {vol} {rep} {page} ({rng.randint(1950, 2020)}). "
                             f"In {gen._it(rng, D)}, the court held otherwise; {gen._it(rng, P)} at {page + 2}.</p>")
